@@ -1,5 +1,5 @@
 #!/bin/bash
-# full regression of the checker: unchanged tree silent, self-test catalogue, seeded changes
+# full regression of the checker: unchanged tree silent, self-test catalogue, seeded changes, refactoring corpus silent
 cd /verif || exit 2
 rc=0
 for p in C01 C02 C03 C04 C05 C06 C07 C08 C09 C10 C11 C12 C13 C14 C15 C16 C17 C18; do
@@ -9,4 +9,6 @@ for p in C01 C02 C03 C04 C05 C06 C07 C08 C09 C10 C11 C12 C13 C14 C15 C16 C17 C18
 done
 rm -f /tmp/regress.*.json
 tools/check_all_seeds.sh | grep -v "detected by" && rc=1
+ref=$(tools/refactor_check.sh refactorings/*.diff | grep '^## ' | grep -v ': 0 alarms$' | grep -v 'does not apply$')
+[ -n "$ref" ] && { echo "REFACTORING CORPUS: alarms"; echo "$ref"; rc=1; }
 exit $rc
